@@ -286,6 +286,76 @@ def walkDepth : Nat → List Str → Option Nat
       | d' + 1 => walkDepth d' ws)
     else walkDepth (d + 1) ws
 
+/-! ### the URL of a download: `join_lookup_path` (breakpad-symbols/src/http.rs, as repaired by
+     "fix: module names can no longer redirect symbol downloads away from the server's base URL")
+
+  Every `/`-separated component of `rel` is percent-encoded byte-wise and appended below the
+  directory of the base URL's path; a component `.` or `..` makes the function return `None`.
+  Only the path of the base URL changes (`set_path`, query and fragment cleared): trusted — the
+  `url` crate stores an ASCII path made of the characters below and `%XX` triples unchanged; the
+  engine compares the path of the request actually sent with this model. -/
+
+/-- bytes copied as they are: ASCII letters, digits and `- . _ ~ ! $ & ' ( ) * + , ; = : @` -/
+def keepRaw (b : UInt8) : Bool :=
+  (65 ≤ b && b ≤ 90) || (97 ≤ b && b ≤ 122) || (48 ≤ b && b ≤ 57) ||
+  [45, 46, 95, 126, 33, 36, 38, 39, 40, 41, 42, 43, 44, 59, 61, 58, 64].contains b
+
+/-- one byte of a component: itself, or `%XX` with upper-case hex -/
+def pctEncodeByte (b : UInt8) : Str :=
+  if keepRaw b then [Char.ofNat b.toNat] else ['%', hexU (b.toNat / 16), hexU (b.toNat % 16)]
+
+def utf8 (w : Str) : List UInt8 := w.flatMap String.utf8EncodeChar
+
+/-- `for byte in component.bytes() { … }` -/
+def pctEncode (w : Str) : Str := (utf8 w).flatMap pctEncodeByte
+
+/-- `base_path[..base_path.rfind('/')? + 1]`: up to and including the last `/` -/
+def baseDir (basePath : Str) : Option Str :=
+  if basePath.contains '/' then
+    some (basePath.reverse.dropWhile (· != '/')).reverse
+  else none
+
+/-- `join_lookup_path`, as a function of the base URL's path: the new path -/
+def joinLookupPath (basePath rel : Str) : Option Str :=
+  match baseDir basePath with
+  | none => none
+  | some dir =>
+    let cs := splitOnP (· == '/') rel
+    if cs.any (fun c => c == ['.'] || c == dotdot) then none
+    else some (dir ++ joinWith ['/'] (cs.map pctEncode))
+
+/-- percent-decoding of an ASCII path segment into bytes (a malformed `%` stands for itself) -/
+def pctDecode : Str → List UInt8
+  | [] => []
+  | c :: rest =>
+    if c = '%' then
+      match rest with
+      | a :: b :: rest' =>
+        match Proto.hexDigitVal a, Proto.hexDigitVal b with
+        | some x, some y => UInt8.ofNat (x * 16 + y) :: pctDecode rest'
+        | _, _ => 37 :: pctDecode (a :: b :: rest')
+      | short => 37 :: short.map (fun d => UInt8.ofNat d.toNat)
+    else UInt8.ofNat c.toNat :: pctDecode rest
+termination_by l => l.length
+decreasing_by all_goals (simp_all; try omega)
+
+/-- the Unicode-free alphabet of an encoded segment -/
+def urlSegChars : List Char :=
+  "ABCDEFGHIJKLMNOPQRSTUVWXYZabcdefghijklmnopqrstuvwxyz0123456789-._~!$&'()*+,;=:@%".toList
+
+/-- what the pre-fix code did: `Url::join(rel)` parses `rel` as a URL reference. Not modelled
+    (WHATWG URL parsing); `urlRefHazard` names the inputs on which it demonstrably left the
+    base (witnesses replayed by the engine against `url::Url::join`): a scheme prefix, a
+    leading C0-control/space (trimmed, exposing a leading `/`), TAB/LF/CR (deleted), `%2e`
+    spelled dots. -/
+def hasSchemePrefix : Str → Bool
+  | c :: rest =>
+    c.isAlpha &&
+      (match rest.dropWhile (fun d => d.isAlphanum || d == '+' || d == '-' || d == '.') with
+       | ':' :: _ => true
+       | _ => false)
+  | [] => false
+
 /-! ### line protocol
 
   `paths <op> code:<hex> debug:<hex|none> did:<none|u:<hex bytes>:<appendix hex>|p:<hex bytes>:<appendix hex>> cid:<hex|none>`
@@ -296,6 +366,9 @@ def walkDepth : Nat → List Str → Option Nat
   `paths mozraw server:<hex>`       -> PANIC | server:<hex>
   `paths join <unix|windows> root:<hex> rel:<hex>` -> joined:<hex> inside:<0|1>
   `paths rooted rel:<hex>`          -> rooted:<0|1>
+  `paths url <sym|bin|extra|codeinfo|moz-*> base:<hex> code:.. debug:.. did:.. cid:..`
+                                    -> none | path:<hex>     (path of the request URL)
+  `paths urljoin base:<hex> rel:<hex>` -> none | path:<hex>
   strings are the hex of their UTF-8 bytes (`-` = empty).
 -/
 open Proto
@@ -380,6 +453,34 @@ def handle (_engine : String) (args : List String) : String :=
       let inside := !f.replaces rel && jc.take rc.length == rc && (walkDepth 0 (jc.drop rc.length)).isSome
       s!"joined:{encodeStr j} inside:{b01 inside}"
     | _, _, _ => "bad-op"
+  | ["urljoin", b, s] =>
+    match (field "base:" b) >>= decodeStr, (field "rel:" s) >>= decodeStr with
+    | some base, some rel =>
+      match joinLookupPath base rel with
+      | none => "none"
+      | some p => s!"path:{encodeStr p}"
+    | _, _ => "bad-op"
+  | "url" :: op :: b :: rest =>
+    match (field "base:" b) >>= decodeStr, parseModule rest with
+    | some base, some m =>
+      let rel : Option (Option Str) :=
+        if op == "codeinfo" then some (codeInfoBreakpadSymLookup m)
+        else if op.startsWith "moz-" then
+          (kindOf (op.drop 4).toString).map fun k =>
+            match lookup m k with
+            | none => none
+            | some l => match mozLookup l with
+              | .ok l' => some l'.server_rel
+              | .panic _ => none
+        else (kindOf op).map fun k => (lookup m k).map (·.server_rel)
+      match rel with
+      | none => "bad-op"
+      | some none => "none"
+      | some (some r) =>
+        match joinLookupPath base r with
+        | none => "none"
+        | some p => s!"path:{encodeStr p}"
+    | _, _ => "bad-op"
   | ["rooted", s] =>
     match (field "rel:" s) >>= decodeStr with
     | none => "bad-op"
